@@ -81,7 +81,9 @@ New == /\ IsKind("new")
        /\ UNCHANGED seq /\ Next1
 
 \* ---- filesystem step: the kernel records it produced -----------------------
-ApplyAll(ws, recs, base, maxq, unordered) ==
+ApplyAll(ws0, recs, base, maxq, unordered) ==
+  LET ws == IF unordered /\ Cardinality({k \in 1..Len(recs) : HasBit(recs[k].m, IN_MOVED_FROM) /\ recs[k].ino \in DOMAIN ws0.uw}) > 10
+            THEN [ws0 EXCEPT !.flags = @ \cup {"manymoves"}] ELSE ws0 IN
   IF recs = <<>> THEN ws
   ELSE FoldLeft(LAMBDA acc, k : ApplyRec(acc, recs[k], base + k, maxq, unordered), ws, [k \in 1..Len(recs) |-> k])
 
